@@ -124,7 +124,7 @@ class Partial:
 
 
 PASS_DECORATORS = {"property", "cached_property", "staticmethod", "classmethod", "abstractmethod", "overload", "no_type_check", "lru_cache", "cache",
-                   "torch.enable_grad()", "torch.no_grad()", "torch.inference_mode()", "final"}
+                   "torch.enable_grad()", "torch.no_grad()", "torch.inference_mode()", "final", "contextmanager"}
 
 EFFECT_EVENTS = {"inplace", "obj_setattr", "dict_store", "setattr", "store", "register_buffer", "list_append", "delete", "class_setattr", "backward",
                  "module_call", "ext_call", "opaque_call", "abstract_call", "with_enter"}
@@ -389,6 +389,10 @@ class Interp:
                 ret[0] = self.eval(node.body, env)
                 return ret[0]
             is_gen = any(isinstance(n, (ast.Yield, ast.YieldFrom)) for n in ast.walk(node))
+            if is_gen and fi is not None and "contextmanager" in fi.decorators:
+                # contextlib.contextmanager: `<enter>; yield v; <exit>` or `<enter>; try: yield v; finally: <exit>` - run by the with statement
+                ret[0] = Obj("contextmanager", qual.rsplit(".", 1)[-1], {"env": env, "body": node.body, "qual": qual}, {"contextmanager"})
+                return ret[0]
             if is_gen:
                 shape = self.loop_generator_shape(node)
                 if shape is not None:
@@ -975,6 +979,29 @@ class Interp:
             self.exec_while(st, env)
         elif isinstance(st, ast.With):
             ctxs = [self.eval(i.context_expr, env) for i in st.items]
+            own = [c for c in ctxs if isinstance(c, Obj) and c.cls == "contextmanager"]
+            if own and len(ctxs) != 1:
+                raise Unsupported("a generator-based context manager next to another context in one with statement")
+            if own:
+                # the manager's body is run here, and its `yield` runs the body of the with statement (once): whatever encloses the yield -
+                # another with, try/finally - encloses the block, and an exception or return from the block unwinds through it
+                cm = own[0]
+                cenv = cm.attrs["env"]
+                cenv["__cm_body__"] = [st.body, env, st.items[0].optional_vars, st, 0]
+                self.depth += 1
+                self.stack.append(cm.attrs["qual"])
+                try:
+                    try:
+                        self.exec_block(cm.attrs["body"], cenv)
+                    except _Return as r_:
+                        if cenv["__cm_body__"][4] != 1:
+                            raise Unsupported("a context manager that returns before it yields")
+                finally:
+                    self.stack.pop()
+                    self.depth -= 1
+                if cenv["__cm_body__"][4] != 1:
+                    raise Unsupported("a context manager that does not yield exactly once")
+                return
             for i, c in zip(st.items, ctxs):
                 if i.optional_vars is not None:
                     self.assign(i.optional_vars, c, env, st)
@@ -1394,6 +1421,19 @@ class Interp:
 
     def eval_Yield(self, e, env):
         v = self.eval(e.value, env) if e.value is not None else None
+        cm_ = env
+        while cm_ is not None and "__cm_body__" not in cm_ and "__yield__" not in cm_:
+            cm_ = cm_.get("__parent__")
+        if cm_ is not None and "__cm_body__" in cm_:
+            slot = cm_["__cm_body__"]
+            slot[4] += 1
+            if slot[4] > 1:
+                raise Unsupported("a context manager that yields more than once")
+            body_, caller_env, target_, st_ = slot[:4]
+            if target_ is not None:
+                self.assign(target_, v, caller_env, st_)
+            self.exec_block(body_, caller_env)
+            return None
         if self.loop_stack:
             lc = self.loop_stack[-1]
             v = Op("forall", (lc["elem"], lc["desc"], v))
